@@ -50,6 +50,19 @@ theorem hasPrefix_cons_cons (a b : Char) (c p : Str) :
 theorem formatStringWith_convError (cap : Nat) : formatStringWith cap none = .exception := by
   simp [formatStringWith, snprintfM]
 
+/-- the regenerated size test is sound: when it says "the stack buffer was large enough", the result (r characters
+    and the terminating NUL) did fit into `cap` bytes.  (Proved by arithmetic on whatever comparison the source has
+    now: `r < cap`, `r <= cap-1`, `r+1 < cap` ... pass; `r <= cap` does not.) -/
+theorem fmtFitsStack_sound (r cap : Nat) (h : fmtFitsStack r cap = true) : r < cap := by
+  unfold fmtFitsStack at h
+  simp only [decide_eq_true_eq] at h
+  omega
+
+/-- the regenerated heap-buffer size has room for the r characters and the terminating NUL -/
+theorem fmtDynamicSize_sound (r : Nat) : r < fmtDynamicSize r := by
+  unfold fmtDynamicSize
+  omega
+
 /-- for every capacity of the stack buffer (also 0 and 1) the complete text comes back, provided its length
     is representable in `int`; otherwise snprintf reports an error and formatString throws -/
 theorem formatStringWith_text (cap : Nat) (t : Str) :
@@ -61,11 +74,15 @@ theorem formatStringWith_text (cap : Nat) (t : Str) :
   · have h' : t.length ≤ intMax := by omega
     simp only [h, h', ↓reduceIte]
     split
-    · rename_i hlt
+    · rename_i hfit
+      have hlt := fmtFitsStack_sound _ _ hfit
       have : cap ≠ 0 := by omega
       simp only [this, ↓reduceIte]
       rw [List.take_of_length_le (by omega)]
-    · simp
+    · have hd := fmtDynamicSize_sound t.length
+      have : fmtDynamicSize t.length ≠ 0 := by omega
+      simp only [this, ↓reduceIte]
+      rw [List.take_of_length_le (by omega)]
 
 /-! ### splitSlash -/
 
